@@ -18,6 +18,17 @@ pub struct GenCfg {
     pub shadow: bool,
 }
 
+/// payload token for an operator (languages with payload fields)
+pub fn payload_token(op: &str, r: &mut Rng) -> String {
+    match op {
+        "neg" | "big" => ["-3", "0", "17", "-1"][r.below(4)].to_string(),
+        "flag" => ["true", "false"][r.below(2)].to_string(),
+        "ch" => ["a", "b", "Z"][r.below(3)].to_string(),
+        "tag" | "#sym" => ["alpha", "beta", "gamma", "s17", "omega", "k"][r.below(6)].to_string(),
+        _ => format!("{}", r.below(4)),
+    }
+}
+
 pub const SYM_OPS_BASIC: &[&str] = &["f", "g", "h", "k", "var", "c", "d", "u", "app", "lam", "sum", "let"];
 pub const SYM_OPS_ALL: &[&str] = &["f", "g", "h", "k", "q", "var", "c", "d", "e", "u", "w", "app", "pair", "lam", "sum", "let", "bb", "idx"];
 
@@ -64,7 +75,7 @@ pub fn gen_term(r: &mut Rng, c: &GenCfg, depth: usize, next_binder: &mut Name, s
                 scope.truncate(n);
                 kids.push((bs, kid));
             }
-            Fld::P => pay = Some(format!("{}", r.below(4))),
+            Fld::P => pay = Some(payload_token(o.name, r)),
         }
     }
     Tm { op: o.name, slots, kids, pay }
